@@ -9,6 +9,7 @@ import (
 	"net"
 	"os"
 	"path"
+	"strings"
 	"sync"
 	"time"
 
@@ -62,7 +63,15 @@ type Srv struct {
 	mu       sync.Mutex
 }
 
+// addrOverride is used by the package's own test to force a port collision
+var addrOverride func() string
+
 func freeAddr() string {
+	if addrOverride != nil {
+		if a := addrOverride(); a != "" {
+			return a
+		}
+	}
 	l, err := net.Listen("tcp", "127.0.0.1:0")
 	if err != nil {
 		panic(err)
@@ -85,6 +94,20 @@ func NewDir() string {
 // Start starts a server on dir (an existing dir means "restart"). A failing component makes the
 // injector panic; Start returns that as an error.
 func Start(dir string, o Opts) (s *Srv, err error) {
+	// the listen address is probed and then released before the server binds it: another server (of a parallel worker or of
+	// another harness process on the machine) can take the port in between. That is a property of this harness, not of the
+	// code under test: such a start is repeated with another port.
+	for attempt := 0; attempt < 8; attempt++ {
+		s, err = start1(dir, o)
+		if err == nil || !strings.Contains(err.Error(), "address already in use") {
+			return s, err
+		}
+		time.Sleep(time.Duration(10*(attempt+1)) * time.Millisecond)
+	}
+	return s, err
+}
+
+func start1(dir string, o Opts) (s *Srv, err error) {
 	cfg := server.GetDefaultConfig()
 	cfg.BaseDir = dir
 	cfg.PublicApiRpc.ListenAddr = freeAddr()
@@ -154,11 +177,16 @@ func Start(dir string, o Opts) (s *Srv, err error) {
 	}()
 	if err != nil {
 		cancel()
+		// release whatever the injector had initialised before the failing component
+		func() {
+			defer func() { recover() }()
+			inj.Shutdown()
+		}()
 		return nil, err
 	}
 	if !o.NoRPC {
 		var c *rpc.Client
-		for i := 0; i < 200; i++ {
+		for i := 0; i < 2000; i++ {
 			c, err = rpc.NewClient(transport.Config{ListenAddr: s.Addr})
 			if err == nil {
 				break
@@ -176,6 +204,9 @@ func Start(dir string, o Opts) (s *Srv, err error) {
 
 // Stop is a graceful shutdown (what cancelling server.Start's context does).
 func (s *Srv) Stop() {
+	if s == nil {
+		return
+	}
 	s.mu.Lock()
 	defer s.mu.Unlock()
 	if s.stopped {
